@@ -60,44 +60,68 @@ theorem prefix_fits (inp : Bytes) (p : Int) (pre : Bytes) (h0 : 0 ≤ p) (h1 : p
 
 theorem B.setPos {s : St} (h : B inp d s) (p : Int) (h1 : s.start ≤ p) (h2 : p ≤ inp.length) :
     B inp d { s with pos := p } :=
-  ⟨h.input, h.delims, h.wfd, h.start0, h1, h2, h.events⟩
+  ⟨h.input, h.delims, h.wfd, h.start0, h1, h2, h.events, h.fields⟩
 
 theorem B.setWidth {s : St} (h : B inp d s) (w : Int) : B inp d { s with width := w } :=
-  ⟨h.input, h.delims, h.wfd, h.start0, h.startPos, h.posLen, h.events⟩
+  ⟨h.input, h.delims, h.wfd, h.start0, h.startPos, h.posLen, h.events, h.fields⟩
 
-theorem emit_ok (t : Tok) (s : St) (h : B inp d s) :
+/-- the value `emit` sends: `l.input[l.start:l.pos]` -/
+def pending (s : St) : Bytes := (s.input.drop s.start.toNat).take (s.pos - s.start).toNat
+
+theorem emit_ok' (t : Tok) (s : St) (h : B inp d s) (hf : t = Tok.field → ∃ c cs, pending s = 46 :: c :: cs) :
     Ok (emit t s) (fun _ s' => B inp d s' ∧ s'.start = s.pos ∧ s'.pos = s.pos ∧ s'.width = s.width ∧
       s'.parenDepth = s.parenDepth) := by
   unfold emit slice
   have hc : 0 ≤ s.start ∧ s.start ≤ s.pos ∧ s.pos ≤ (s.input.length : Int) := by
     rw [h.input]; exact ⟨h.start0, h.startPos, h.posLen⟩
   simp only [hc, and_self, if_true]
-  refine ⟨⟨h.input, h.delims, h.wfd, ?_, Int.le_refl _, h.posLen, ?_⟩, rfl, rfl, rfl, rfl⟩
+  refine ⟨⟨h.input, h.delims, h.wfd, ?_, Int.le_refl _, h.posLen, ?_, ?_⟩, rfl, rfl, rfl, rfl⟩
   · exact Int.le_trans h.start0 h.startPos
   · intro e he
     simp at he
     rcases he with rfl | he
     · exact ⟨h.start0, h.startPos, h.posLen⟩
     · exact h.events e he
+  · intro e he
+    simp at he
+    rcases he with rfl | he
+    · exact hf
+    · exact h.fields e he
+
+/-- `emit` of anything but a field item -/
+theorem emit_ok (t : Tok) (s : St) (h : B inp d s) (hne : t ≠ Tok.field := by decide) :
+    Ok (emit t s) (fun _ s' => B inp d s' ∧ s'.start = s.pos ∧ s'.pos = s.pos ∧ s'.width = s.width ∧
+      s'.parenDepth = s.parenDepth) :=
+  emit_ok' t s h (fun e => (hne e).elim)
 
 theorem ignore_ok (k : IgnKind) (s : St) (h : B inp d s) :
     Ok (ignore k s) (fun _ s' => B inp d s' ∧ s'.start = s.pos ∧ s'.pos = s.pos ∧ s'.width = s.width ∧
       s'.parenDepth = s.parenDepth) := by
-  refine ⟨⟨h.input, h.delims, h.wfd, Int.le_trans h.start0 h.startPos, Int.le_refl _, h.posLen, ?_⟩, rfl, rfl, rfl, rfl⟩
-  intro e he
-  simp at he
-  rcases he with rfl | he
-  · exact ⟨h.start0, h.startPos, h.posLen⟩
-  · exact h.events e he
+  refine ⟨⟨h.input, h.delims, h.wfd, Int.le_trans h.start0 h.startPos, Int.le_refl _, h.posLen, ?_, ?_⟩, rfl, rfl, rfl, rfl⟩
+  · intro e he
+    simp at he
+    rcases he with rfl | he
+    · exact ⟨h.start0, h.startPos, h.posLen⟩
+    · exact h.events e he
+  · intro e he
+    simp at he
+    rcases he with rfl | he
+    · trivial
+    · exact h.fields e he
 
 theorem errorf_ok (msg : String) (s : St) (h : B inp d s) :
-    Ok (errorf msg s) (fun r s' => r = none ∧ B inp d s') := by
-  refine ⟨rfl, ⟨h.input, h.delims, h.wfd, h.start0, h.startPos, h.posLen, ?_⟩⟩
-  intro e he
-  simp at he
-  rcases he with rfl | he
-  · exact ⟨h.start0, Int.le_trans h.startPos h.posLen⟩
-  · exact h.events e he
+    Ok (errorf msg s) (fun r s' => r = none ∧ B inp d s' ∧ s'.start = s.start ∧ s'.pos = s.pos) := by
+  refine ⟨rfl, ⟨h.input, h.delims, h.wfd, h.start0, h.startPos, h.posLen, ?_, ?_⟩, rfl, rfl⟩
+  · intro e he
+    simp at he
+    rcases he with rfl | he
+    · exact ⟨h.start0, Int.le_trans h.startPos h.posLen⟩
+    · exact h.events e he
+  · intro e he
+    simp at he
+    rcases he with rfl | he
+    · trivial
+    · exact h.fields e he
 
 /-- `next` under the invariant: the cursor moves by the width of the rune read, which can be given back -/
 theorem next_ok (s : St) (h : B inp d s) :
@@ -108,14 +132,14 @@ theorem next_ok (s : St) (h : B inp d s) :
   rw [next_eq s h0 h1]
   have hb := runeAt_bounds s h0 h1
   rw [h.input] at hb
-  refine ⟨rfl, rfl, ⟨⟨h.input, h.delims, h.wfd, h.start0, ?_, hb.2.1, h.events⟩, hb.1, ?_⟩⟩
+  refine ⟨rfl, rfl, ⟨⟨h.input, h.delims, h.wfd, h.start0, ?_, hb.2.1, h.events, h.fields⟩, hb.1, ?_⟩⟩
   · show s.start ≤ s.pos + (runeAt s).2
     have := h.startPos; omega
   · show s.start ≤ s.pos + (runeAt s).2 - (runeAt s).2
     have := h.startPos; omega
 
 theorem N.backup {s : St} (h : N inp d s) : B inp d { s with pos := s.pos - s.width } :=
-  ⟨h.input, h.delims, h.wfd, h.start0, h.back, by show s.pos - s.width ≤ _; have := h.posLen; have := h.width0; omega, h.events⟩
+  ⟨h.input, h.delims, h.wfd, h.start0, h.back, by show s.pos - s.width ≤ _; have := h.posLen; have := h.width0; omega, h.events, h.fields⟩
 
 theorem peek_ok (s : St) (h : B inp d s) :
     Ok (peek s) (fun r s' => r = (runeAt s).1 ∧ s' = { s with width := (runeAt s).2 } ∧ B inp d s') := by
@@ -136,6 +160,18 @@ theorem rem_next (s : St) (h : B inp d s) (hsome : (runeAt s).1.isSome) :
   unfold rem
   simp only
   omega
+
+theorem runeAt_congr (s t : St) (hi : s.input = t.input) (hp : s.pos = t.pos) : runeAt s = runeAt t := by
+  unfold runeAt
+  rw [hi, hp]
+
+/-! ### facts about the regenerated token tables (tie A): none of them produces a field item -/
+
+theorem single_not_field : ∀ p ∈ Facts.singleCharToks, tokOf p.2 ≠ Tok.field := by decide
+theorem two_not_field : ∀ p ∈ Facts.twoCharToks,
+    tokOf p.2.2.1 ≠ Tok.field ∧ tokOf p.2.2.2 ≠ Tok.field ∧ p.2.2.2 ≠ "" := by decide
+theorem sign_not_field : tokOf Facts.minusTok ≠ Tok.field ∧ tokOf Facts.plusTok ≠ Tok.field := by decide
+theorem kw_not_field : ¬ (Tok.field.code > Tok.keyword.code) := by decide
 
 /-! ### small helpers of the state functions -/
 
@@ -193,21 +229,34 @@ theorem atRightDelim_ok (s : St) (h : B inp d s) :
     · rename_i hp; exact ⟨rfl, fun _ => Or.inr hp⟩
     · exact ⟨rfl, fun hc => by simp at hc⟩
 
+/-- what `atTerminator` answers: a function of the rune at the cursor and the right delimiter -/
+def termVal (s : St) : Bool :=
+  if isSpace (runeAt s).1 then true
+  else match (runeAt s).1 with
+    | none => Facts.terminatorEOF
+    | some c => if Facts.terminatorChars.contains c then true else (decodeRune s.d.right).1 == c
+
 theorem atTerminator_ok (s : St) (h : B inp d s) :
-    Ok (atTerminator s) (fun _ s' => s' = { s with width := (runeAt s).2 } ∧ B inp d s') := by
+    Ok (atTerminator s) (fun r s' => s' = { s with width := (runeAt s).2 } ∧ B inp d s' ∧ r = termVal s) := by
   unfold atTerminator
   refine Ok.bind (peek_ok s h) ?_
   intro r s1 h1
-  obtain ⟨_, hs1, hb1⟩ := h1
+  obtain ⟨hr1, hs1, hb1⟩ := h1
   rw [lbind_apply, get_apply]
   simp only
+  have hd1 : s1.d = s.d := by rw [hs1]
+  unfold termVal
+  rw [← hr1]
   split
-  · exact ⟨hs1, hb1⟩
-  · split
-    · exact ⟨hs1, hb1⟩
-    · split
-      · exact ⟨hs1, hb1⟩
-      · exact ⟨hs1, hb1⟩
+  · exact ⟨hs1, hb1, rfl⟩
+  · cases r with
+    | none => exact ⟨hs1, hb1, rfl⟩
+    | some c =>
+      simp only
+      split
+      · exact ⟨hs1, hb1, rfl⟩
+      · refine ⟨hs1, hb1, ?_⟩
+        rw [hd1]
 
 /-! ### the facts a state relies on when it is entered -/
 
@@ -219,8 +268,12 @@ def Entry (st : StateId) (s : St) : Prop :=
   | .leftDelim => hasPrefix (rest s) s.d.left = true
   | .comment => hasPrefix (rest s) s.d.lcomment = true
   | .rightDelim => hasPrefix (rest s) s.d.trimRight = true ∨ hasPrefix (rest s) s.d.right = true
+  | .insideAction => s.start = s.pos
   | .space => s.start < s.pos
-  | .identifier => s.start < s.pos ∨ (∃ c, (runeAt s).1 = some c ∧ isAlphaNumeric (some c) = true)
+  | .identifier =>
+    (∃ b tl, s.input.drop s.start.toNat = b :: tl ∧ b ≠ 46) ∧
+    (s.start < s.pos ∨ (∃ c, (runeAt s).1 = some c ∧ isAlphaNumeric (some c) = true))
+  | .field => s.start + 1 = s.pos ∧ ∃ tl, s.input.drop s.start.toNat = 46 :: tl
   | _ => True
 
 /-- what a state function leaves behind: the invariant, and the entry fact of the state it selects -/
@@ -273,16 +326,17 @@ theorem lexLeftDelim_ok (s : St) (h : B inp d s) (he : Entry .leftDelim s) :
   refine Ok.bind (ok_restAt s2 h2.1 s2.pos h2.1.pos0 h2.1.posLen) ?_
   intro r s4 e4
   obtain ⟨rfl, rfl⟩ := e4
-  have tail : ∀ s6, B inp d s6 → Ok ((do
+  have tail : ∀ s6, B inp d s6 → s6.start = s6.pos → Ok ((do
       modify fun s => { s with parenDepth := 0 }
       pure (some StateId.insideAction) : M (Option StateId)) s6) (Goes inp d) := by
-    intro s6 hb6
+    intro s6 hb6 he6
     refine Ok.bind (ok_modify _ s6) ?_
     intro _ s7 e7
-    refine ⟨by rw [e7]; exact ⟨hb6.input, hb6.delims, hb6.wfd, hb6.start0, hb6.startPos, hb6.posLen, hb6.events⟩, ?_⟩
+    refine ⟨by rw [e7]; exact ⟨hb6.input, hb6.delims, hb6.wfd, hb6.start0, hb6.startPos, hb6.posLen, hb6.events, hb6.fields⟩, ?_⟩
     intro st hst
     cases hst
-    trivial
+    rw [e7]
+    exact he6
   by_cases hp : hasPrefix (List.drop s2.pos.toNat s2.input) leftTrimMarker = true
   · rw [if_pos hp]
     have hf2 := prefix_fits inp s2.pos leftTrimMarker h2.1.pos0 h2.1.posLen (by rw [← h2.1.input]; exact hp)
@@ -292,9 +346,9 @@ theorem lexLeftDelim_ok (s : St) (h : B inp d s) (he : Entry .leftDelim s) :
       rw [e5]; exact h2.1.setPos _ (by have := h2.1.startPos; simp [leftTrimMarker] at hf2 ⊢; omega) (by simpa [leftTrimMarker] using hf2)
     refine Ok.bind (ignore_ok _ s5 hb5) ?_
     intro _ s6 h6
-    exact tail s6 h6.1
+    exact tail s6 h6.1 (by rw [h6.2.1, h6.2.2.1])
   · rw [if_neg hp]
-    exact tail s2 h2.1
+    exact tail s2 h2.1 (by rw [h2.2.1, h2.2.2.1])
 
 theorem lexComment_ok (s : St) (h : B inp d s) (he : Entry .comment s) :
     Ok (lexComment s) (Goes inp d) := by
@@ -311,7 +365,7 @@ theorem lexComment_ok (s : St) (h : B inp d s) (he : Entry .comment s) :
   intro r s3 e3
   obtain ⟨rfl, rfl⟩ := e3
   cases hi : indexOf (List.drop s1.pos.toNat s1.input) s1.d.rcomment with
-  | none => exact (errorf_ok _ s1 hb1).mono (fun r s' h => ⟨h.2, by intro st hst; rw [h.1] at hst; cases hst⟩)
+  | none => exact (errorf_ok _ s1 hb1).mono (fun r s' h => ⟨h.2.1, by intro st hst; rw [h.1] at hst; cases hst⟩)
   | some i =>
     have hf := indexOf_fits _ _ i hi
     have hl := drop_length_int inp s1.pos hb1.pos0 hb1.posLen
@@ -339,8 +393,13 @@ theorem leftTrimLength_le (b : Bytes) : leftTrimLength b ≤ b.length := by
 theorem goes_text {s' : St} (h : B inp d s') : Goes inp d (some StateId.text) s' :=
   ⟨h, by intro st hst; cases hst; trivial⟩
 
-theorem goes_inside {s' : St} (h : B inp d s') : Goes inp d (some StateId.insideAction) s' :=
-  ⟨h, by intro st hst; cases hst; trivial⟩
+theorem goes_inside {s' : St} (h : B inp d s') (he : s'.start = s'.pos) : Goes inp d (some StateId.insideAction) s' :=
+  ⟨h, by intro st hst; cases hst; exact he⟩
+
+/-- after an `emit` (or `ignore`) nothing is pending -/
+theorem goes_inside_emit {s0 s' : St} (h : B inp d s' ∧ s'.start = s0.pos ∧ s'.pos = s0.pos ∧ s'.width = s0.width ∧
+    s'.parenDepth = s0.parenDepth) : Goes inp d (some StateId.insideAction) s' :=
+  goes_inside h.1 (by rw [h.2.1, h.2.2.1])
 
 theorem lexRightDelim_ok (s : St) (h : B inp d s) (he : Entry .rightDelim s) :
     Ok (lexRightDelim s) (Goes inp d) := by
@@ -410,7 +469,7 @@ theorem rawQuoteLoop_ok : ∀ (fuel : Nat) (s : St), B inp d s → rem s < fuel 
     intro r s1 h1
     obtain ⟨hr1, hs1, hn⟩ := h1
     cases r with
-    | none => exact (errorf_ok _ s1 hn.toB).mono (fun r s' h => ⟨h.2, by intro st hst; rw [h.1] at hst; cases hst⟩)
+    | none => exact (errorf_ok _ s1 hn.toB).mono (fun r s' h => ⟨h.2.1, by intro st hst; rw [h.1] at hst; cases hst⟩)
     | some c =>
       simp only
       have := rem_next s h (by rw [← hr1]; rfl)
@@ -418,15 +477,15 @@ theorem rawQuoteLoop_ok : ∀ (fuel : Nat) (s : St), B inp d s → rem s < fuel 
       split
       · refine Ok.bind (emit_ok _ s1 hn.toB) ?_
         intro _ s2 h2
-        exact goes_inside h2.1
+        exact goes_inside_emit h2
       · exact rawQuoteLoop_ok fuel s1 hn.toB (by omega)
 
-theorem quotedLoop_ok (q : Nat) (t : Tok) (msg : String) : ∀ (fuel : Nat) (s : St), B inp d s → rem s < fuel →
+theorem quotedLoop_ok (q : Nat) (t : Tok) (ht : t ≠ Tok.field) (msg : String) : ∀ (fuel : Nat) (s : St), B inp d s → rem s < fuel →
     Ok (quotedLoop q t msg fuel s) (Goes inp d)
   | 0, _, _, hr => by omega
   | fuel + 1, s, h, hr => by
     have err : ∀ s', B inp d s' → Ok (errorf msg s') (Goes inp d) := fun s' hb =>
-      (errorf_ok _ s' hb).mono (fun r s'' h => ⟨h.2, by intro st hst; rw [h.1] at hst; cases hst⟩)
+      (errorf_ok _ s' hb).mono (fun r s'' h => ⟨h.2.1, by intro st hst; rw [h.1] at hst; cases hst⟩)
     unfold quotedLoop
     refine Ok.bind (next_ok s h) ?_
     intro r s1 h1
@@ -449,14 +508,14 @@ theorem quotedLoop_ok (q : Nat) (t : Tok) (msg : String) : ∀ (fuel : Nat) (s :
           rw [← hs2] at hrem2
           split
           · exact err s2 hn2.toB
-          · exact quotedLoop_ok q t msg fuel s2 hn2.toB (by omega)
+          · exact quotedLoop_ok q t ht msg fuel s2 hn2.toB (by omega)
       · split
         · exact err s1 hn.toB
         · split
-          · refine Ok.bind (emit_ok _ s1 hn.toB) ?_
+          · refine Ok.bind (emit_ok _ s1 hn.toB ht) ?_
             intro _ s2 h2
-            exact goes_inside h2.1
-          · exact quotedLoop_ok q t msg fuel s1 hn.toB (by omega)
+            exact goes_inside_emit h2
+          · exact quotedLoop_ok q t ht msg fuel s1 hn.toB (by omega)
 
 theorem rem_lt_fuelOf (s : St) (h : B inp d s) : rem s < fuelOf s := by
   unfold rem fuelOf
@@ -466,12 +525,12 @@ theorem rem_lt_fuelOf (s : St) (h : B inp d s) : rem s < fuelOf s := by
 theorem lexChar_ok (s : St) (h : B inp d s) : Ok (lexChar s) (Goes inp d) := by
   unfold lexChar
   rw [lbind_apply, get_apply]
-  exact quotedLoop_ok _ _ _ _ s h (rem_lt_fuelOf s h)
+  exact quotedLoop_ok _ _ (by decide) _ _ s h (rem_lt_fuelOf s h)
 
 theorem lexQuote_ok (s : St) (h : B inp d s) : Ok (lexQuote s) (Goes inp d) := by
   unfold lexQuote
   rw [lbind_apply, get_apply]
-  exact quotedLoop_ok _ _ _ _ s h (rem_lt_fuelOf s h)
+  exact quotedLoop_ok _ _ (by decide) _ _ s h (rem_lt_fuelOf s h)
 
 theorem lexRawQuote_ok (s : St) (h : B inp d s) : Ok (lexRawQuote s) (Goes inp d) := by
   unfold lexRawQuote
@@ -550,7 +609,7 @@ theorem scanNumber_ok (s : St) (h : B inp d s) : Ok (scanNumber s) (fun _ s' => 
 theorem goes_none {s' : St} (h : B inp d s') : Goes inp d none s' := ⟨h, by intro st hst; cases hst⟩
 
 theorem errorf_goes (msg : String) (s : St) (h : B inp d s) : Ok (errorf msg s) (Goes inp d) :=
-  (errorf_ok msg s h).mono (fun r s' h => ⟨h.2, by intro st hst; rw [h.1] at hst; cases hst⟩)
+  (errorf_ok msg s h).mono (fun r s' h => ⟨h.2.1, by intro st hst; rw [h.1] at hst; cases hst⟩)
 
 theorem lexNumber_ok (s : St) (h : B inp d s) : Ok (lexNumber s) (Goes inp d) := by
   unfold lexNumber
@@ -560,16 +619,19 @@ theorem lexNumber_ok (s : St) (h : B inp d s) : Ok (lexNumber s) (Goes inp d) :=
   · exact errorf_goes _ s1 h1
   · refine Ok.bind (emit_ok _ s1 h1) ?_
     intro _ s2 h2
-    exact goes_inside h2.1
+    exact goes_inside_emit h2
 
 theorem lexFieldLoop_ok : ∀ (fuel : Nat) (s : St), B inp d s → rem s < fuel →
-    Ok (lexFieldLoop fuel s) (fun _ s' => B inp d s')
+    Ok (lexFieldLoop fuel s) (fun _ s' => B inp d s' ∧ s'.start = s.start ∧ s.pos ≤ s'.pos)
   | 0, _, _, hr => by omega
   | fuel + 1, s, h, hr => by
     unfold lexFieldLoop
     refine Ok.bind (next_ok s h) ?_
     intro r s1 h1
     obtain ⟨hr1, hs1, hn⟩ := h1
+    have hbnd := runeAt_bounds s h.pos0 (by rw [h.input]; exact h.posLen)
+    have hst1 : s1.start = s.start := by rw [hs1]
+    have hp1 : s1.pos = s.pos + (runeAt s).2 := by rw [hs1]
     split
     · rename_i hal
       have hsome : (runeAt s).1.isSome := by
@@ -578,29 +640,81 @@ theorem lexFieldLoop_ok : ∀ (fuel : Nat) (s : St), B inp d s → rem s < fuel 
         | some c => rfl
       have := rem_next s h hsome
       rw [← hs1] at this
-      exact lexFieldLoop_ok fuel s1 hn.toB (by omega)
-    · exact (backup_ok s1 hn).mono (fun _ _ h => h.1)
+      refine (lexFieldLoop_ok fuel s1 hn.toB (by omega)).mono ?_
+      intro _ s' h'
+      exact ⟨h'.1, by rw [h'.2.1, hst1], by have := h'.2.2; have := hbnd.1; omega⟩
+    · refine (backup_ok s1 hn).mono ?_
+      intro _ s' h'
+      refine ⟨h'.1, by rw [h'.2, hst1], ?_⟩
+      rw [h'.2]
+      show s.pos ≤ s1.pos - s1.width
+      rw [hs1]
+      show s.pos ≤ s.pos + (runeAt s).2 - (runeAt s).2
+      omega
 
-theorem lexField_ok (s : St) (h : B inp d s) : Ok (lexField s) (Goes inp d) := by
+theorem termVal_congr (s t : St) (hi : s.input = t.input) (hp : s.pos = t.pos) (hd : s.d = t.d) :
+    termVal s = termVal t := by
+  unfold termVal
+  rw [runeAt_congr s t hi hp, hd]
+
+/-- two or more pending bytes, the first of them a dot -/
+theorem pending_field (s : St) (h : B inp d s) (tl : Bytes) (hdot : s.input.drop s.start.toNat = 46 :: tl)
+    (hlen : s.start + 2 ≤ s.pos) : ∃ c cs, pending s = 46 :: c :: cs := by
+  unfold pending
+  rw [hdot]
+  have hl : ((46 :: tl : Bytes).length : Int) = s.input.length - s.start := by
+    have hpl' : s.pos ≤ s.input.length := by rw [h.input]; exact h.posLen
+    rw [← hdot, List.length_drop]; have := h.start0; have := h.startPos; omega
+  have hpl : s.pos ≤ s.input.length := by rw [h.input]; exact h.posLen
+  obtain ⟨k, hk⟩ : ∃ k : Nat, (s.pos - s.start).toNat = k + 2 := ⟨(s.pos - s.start).toNat - 2, by omega⟩
+  rw [hk]
+  cases tl with
+  | nil => simp at hl; omega
+  | cons c cs => exact ⟨c, cs.take k, by simp [List.take]⟩
+
+theorem lexField_ok (s : St) (h : B inp d s) (he : Entry .field s) : Ok (lexField s) (Goes inp d) := by
+  obtain ⟨hsp, tl, hdot⟩ := he
   unfold lexField
   refine Ok.bind (atTerminator_ok s h) ?_
   intro t s1 h1
-  split
-  · refine Ok.bind (emit_ok _ s1 h1.2) ?_
+  obtain ⟨hs1, hb1, ht⟩ := h1
+  by_cases htt : t = true
+  · rw [if_pos htt]
+    refine Ok.bind (emit_ok _ s1 hb1) ?_
     intro _ s2 h2
-    exact goes_inside h2.1
-  · refine Ok.bind (ok_get s1) ?_
+    exact goes_inside_emit h2
+  · rw [if_neg htt]
+    refine Ok.bind (ok_get s1) ?_
     intro g s2 e2
     obtain ⟨rfl, rfl⟩ := e2
-    refine Ok.bind (lexFieldLoop_ok _ s1 h1.2 (rem_lt_fuelOf s1 h1.2)) ?_
+    refine Ok.bind (lexFieldLoop_ok _ s1 hb1 (rem_lt_fuelOf s1 hb1)) ?_
     intro _ s3 h3
-    refine Ok.bind (atTerminator_ok s3 h3) ?_
+    obtain ⟨hb3, hst3, hp3⟩ := h3
+    refine Ok.bind (atTerminator_ok s3 hb3) ?_
     intro t2 s4 h4
-    split
-    · exact errorf_goes _ s4 h4.2
-    · refine Ok.bind (emit_ok _ s4 h4.2) ?_
+    obtain ⟨hs4, hb4, ht2⟩ := h4
+    by_cases ht2t : (!t2) = true
+    · rw [if_pos ht2t]
+      exact errorf_goes _ s4 hb4
+    · rw [if_neg ht2t]
+      have hp1 : s1.pos = s.pos := by rw [hs1]
+      have hst1 : s1.start = s.start := by rw [hs1]
+      -- the loop moved: otherwise the second answer would be the first
+      have hmoved : s.pos < s3.pos := by
+        by_cases hlt : s.pos < s3.pos
+        · exact hlt
+        · exfalso
+          have hpe : s3.pos = s.pos := by omega
+          have : termVal s3 = termVal s :=
+            termVal_congr s3 s (by rw [hb3.input, h.input]) hpe (by rw [hb3.delims, h.delims])
+          rw [ht2, this, ← ht] at ht2t
+          cases t <;> simp_all
+      have hst4 : s4.start = s.start := by rw [hs4]; show s3.start = s.start; rw [hst3, hst1]
+      have hp4 : s4.pos = s3.pos := by rw [hs4]
+      have hi4 : s4.input = s.input := by rw [hb4.input, h.input]
+      refine Ok.bind (emit_ok' Tok.field s4 hb4 (fun _ => pending_field s4 hb4 tl (by rw [hi4, hst4]; exact hdot) (by rw [hst4, hp4]; omega))) ?_
       intro _ s5 h5
-      exact goes_inside h5.1
+      exact goes_inside_emit h5
 
 /-! ### spaces -/
 
@@ -707,7 +821,7 @@ theorem lexSpace_ok (s : St) (h : B inp d s) (he : Entry .space s) : Ok (lexSpac
     exact ⟨h5.1, by intro st hst; cases hst; exact Or.inl (h5.2 hg)⟩
   · refine Ok.bind (emit_ok _ s5 h5.1) ?_
     intro _ s6 h6
-    exact goes_inside h6.1
+    exact goes_inside_emit h6
 
 /-! ### identifiers -/
 
@@ -717,7 +831,8 @@ theorem slice_ok (inp : Bytes) (a b : Int) (h0 : 0 ≤ a) (h1 : a ≤ b) (h2 : b
   · simp [slice, h0, h1, h2]
   · rw [List.length_take, List.length_drop]; omega
 
-theorem emitWord_ok (kw : Option Tok) (word : Bytes) (s : St) (h : B inp d s) : word ≠ [] →
+theorem emitWord_ok (kw : Option Tok) (word : Bytes) (s : St) (h : B inp d s) :
+    (∀ t, kw = some t → t ≠ Tok.field) → (∃ c rest, word = c :: rest ∧ c ≠ 46) →
     Ok ((match kw with
       | some t => emit t
       | none =>
@@ -726,25 +841,25 @@ theorem emitWord_ok (kw : Option Tok) (word : Bytes) (s : St) (h : B inp d s) : 
         | c :: _ =>
           if c == 46 then emit Tok.field
           else if word == wordTrue || word == wordFalse then emit Tok.bool
-          else emit Tok.identifier : M Unit) s) (fun _ s' => B inp d s') := by
-  intro hw
+          else emit Tok.identifier : M Unit) s)
+      (fun _ s' => B inp d s' ∧ s'.start = s.pos ∧ s'.pos = s.pos ∧ s'.width = s.width ∧ s'.parenDepth = s.parenDepth) := by
+  intro hkw hw
   cases kw with
-  | some t => exact (emit_ok _ s h).mono (fun _ _ h => h.1)
+  | some t => exact emit_ok _ s h (hkw t rfl)
   | none =>
-    cases word with
-    | nil => exact (hw rfl).elim
-    | cons c rest =>
-      simp only
-      split
-      · exact (emit_ok _ s h).mono (fun _ _ h => h.1)
-      · split
-        · exact (emit_ok _ s h).mono (fun _ _ h => h.1)
-        · exact (emit_ok _ s h).mono (fun _ _ h => h.1)
+    obtain ⟨c, rest, rfl, hc⟩ := hw
+    simp only
+    have hc' : ¬ (c == 46) = true := by simpa using hc
+    rw [if_neg hc']
+    split
+    · exact emit_ok _ s h
+    · exact emit_ok _ s h
 
 theorem lexIdentifierLoop_ok : ∀ (fuel : Nat) (s : St), B inp d s → Entry .identifier s → rem s < fuel →
     Ok (lexIdentifierLoop fuel s) (Goes inp d)
   | 0, _, _, _, hr => by omega
   | fuel + 1, s, h, he, hr => by
+    obtain ⟨⟨b0, tl0, hfirst, hb0⟩, he⟩ := he
     unfold lexIdentifierLoop
     refine Ok.bind (next_ok s h) ?_
     intro r s1 h1
@@ -759,7 +874,7 @@ theorem lexIdentifierLoop_ok : ∀ (fuel : Nat) (s : St), B inp d s → Entry .i
       have hrem := rem_next s h hsome
       rw [← hs1] at hrem
       have hw := hbnd.2.2.1 hsome
-      refine lexIdentifierLoop_ok fuel s1 hn.toB (Or.inl ?_) (by omega)
+      refine lexIdentifierLoop_ok fuel s1 hn.toB ⟨⟨b0, tl0, by rw [hs1]; exact hfirst, hb0⟩, Or.inl ?_⟩ (by omega)
       rw [hs1]; show s.start < s.pos + (runeAt s).2
       have := h.startPos; omega
     · rename_i hal
@@ -776,18 +891,29 @@ theorem lexIdentifierLoop_ok : ∀ (fuel : Nat) (s : St), B inp d s → Entry .i
       intro g s3 e3
       obtain ⟨rfl, rfl⟩ := e3
       obtain ⟨word, hword, hwl⟩ := slice_ok inp s2.start s2.pos hb2.start0 hb2.startPos hb2.posLen
+      have hwordeq : word = (inp.drop s2.start.toNat).take (s2.pos - s2.start).toNat := by
+        simp [slice, hb2.start0, hb2.startPos, hb2.posLen] at hword
+        exact hword.symm
       rw [hb2.input, hword]
       simp only
       refine Ok.bind (atTerminator_ok s2 hb2) ?_
       intro term s4 h4
       split
-      · exact errorf_goes _ s4 h4.2
-      · refine Ok.bind (Q := fun _ s' => B inp d s') ?_ (fun _ s5 h5 => goes_inside h5)
-        refine emitWord_ok _ word s4 h4.2 ?_
-        intro hnil
-        rw [hnil] at hwl
-        simp at hwl
-        omega
+      · exact errorf_goes _ s4 h4.2.1
+      · refine Ok.bind (emitWord_ok _ word s4 h4.2.1 ?_ ?_) (fun _ s5 h5 => goes_inside_emit h5)
+        · intro t ht
+          split at ht
+          · rename_i t' _
+            split at ht
+            · rename_i hgt
+              simp at ht; subst ht
+              intro hf; rw [hf] at hgt; exact kw_not_field hgt
+            · simp at ht
+          · simp at ht
+        · obtain ⟨k, hk⟩ : ∃ k : Nat, (s2.pos - s.start).toNat = k + 1 := ⟨(s2.pos - s.start).toNat - 1, by omega⟩
+          refine ⟨b0, tl0.take k, ?_, hb0⟩
+          rw [hwordeq, hst2, ← h.input, hfirst, hk]
+          simp [List.take]
 
 theorem lexIdentifier_ok (s : St) (h : B inp d s) (he : Entry .identifier s) : Ok (lexIdentifier s) (Goes inp d) := by
   unfold lexIdentifier
@@ -1016,26 +1142,69 @@ theorem runeAt_ascii (s : St) (c : Nat) (h0 : 0 ≤ s.pos) (h : (runeAt s).1 = s
       rw [this]; rfl
 
 theorem B.setParen {s : St} (h : B inp d s) (p : Int) : B inp d { s with parenDepth := p } :=
-  ⟨h.input, h.delims, h.wfd, h.start0, h.startPos, h.posLen, h.events⟩
+  ⟨h.input, h.delims, h.wfd, h.start0, h.startPos, h.posLen, h.events, h.fields⟩
 
 theorem goes_entry_true {s' : St} (h : B inp d s') (st : StateId) (he : Entry st s') : Goes inp d (some st) s' :=
   ⟨h, by intro st' hst; cases hst; exact he⟩
 
-theorem runeAt_congr (s t : St) (hi : s.input = t.input) (hp : s.pos = t.pos) : runeAt s = runeAt t := by
-  unfold runeAt
-  rw [hi, hp]
+theorem singleTok_not_field (c : Nat) (t : Tok) (h : singleTok c = some t) : t ≠ Tok.field := by
+  unfold singleTok at h
+  cases hf : List.find? (fun p => p.1 == c) Facts.singleCharToks with
+  | none => rw [hf] at h; simp at h
+  | some p =>
+    rw [hf] at h; simp at h; subst h
+    exact single_not_field p (List.mem_of_find?_eq_some hf)
 
-theorem fieldOrNumber_ok (fs : Bool) (s1 : St) (hn1 : N inp d s1) :
+theorem twoTok_not_field (c d2 : Nat) (both : Tok) (single : Option Tok) (h : twoTok c = some (d2, both, single)) :
+    both ≠ Tok.field ∧ ∃ t, single = some t ∧ t ≠ Tok.field := by
+  unfold twoTok at h
+  cases hf : List.find? (fun p => p.1 == c) Facts.twoCharToks with
+  | none => rw [hf] at h; simp at h
+  | some p =>
+    rw [hf] at h; simp at h
+    obtain ⟨_, hb, hs⟩ := h
+    have hp := two_not_field p (List.mem_of_find?_eq_some hf)
+    refine ⟨by rw [← hb]; exact hp.1, ?_⟩
+    rw [if_neg hp.2.2] at hs
+    exact ⟨_, hs.symm, hp.2.1⟩
+
+/-- the byte under the cursor, and the rune it starts -/
+theorem runeAt_byte (s : St) (h0 : 0 ≤ s.pos) (c : Nat) (h : (runeAt s).1 = some c) :
+    ∃ b tl, s.input.drop s.pos.toNat = b :: tl ∧ (decodeRune (b :: tl)).1 = c := by
+  unfold runeAt at h
+  split at h
+  · simp at h
+  · rename_i hge
+    cases hd : s.input.drop s.pos.toNat with
+    | nil =>
+      have : (s.input.drop s.pos.toNat).length = s.input.length - s.pos.toNat := List.length_drop
+      rw [hd] at this; simp at this; omega
+    | cons b rest =>
+      rw [hd] at h
+      simp at h
+      exact ⟨b, rest, rfl, h⟩
+
+theorem byte_of_rune_dot (b : UInt8) (tl : Bytes) (h : (decodeRune (b :: tl)).1 = 46) : b = 46 := by
+  by_cases hb : b < 0x80
+  · simp [decodeRune, hb] at h
+    exact UInt8.toNat_inj.mp (by simpa using h)
+  · have := decodeRune_high b tl hb
+    omega
+
+theorem rune_of_byte_dot (tl : Bytes) : (decodeRune ((46 : UInt8) :: tl)).1 = 46 := by
+  simp [decodeRune]
+
+theorem fieldOrNumber_ok (fs : Bool) (s1 : St) (hn1 : N inp d s1) (hf : Entry .field s1) :
     Ok ((if fs = true then pure (some StateId.field) else do backup; pure (some StateId.number) : M (Option StateId)) s1) (Goes inp d) := by
   cases fs with
-  | true => exact goes_entry_true hn1.toB .field trivial
+  | true => exact goes_entry_true hn1.toB .field hf
   | false =>
     simp only [Bool.false_eq_true, if_false]
     refine Ok.bind (backup_ok s1 hn1) ?_
     intro _ s3 h3
     exact goes_entry_true h3.1 .number trivial
 
-theorem signArm_ok (excl : List String) (opTok : Tok) (s : St) (h : B inp d s) (hlt : s.start < s.pos) :
+theorem signArm_ok (excl : List String) (opTok : Tok) (hne : opTok ≠ Tok.field) (s : St) (h : B inp d s) (hlt : s.start < s.pos) :
     Ok (signArm excl opTok s) (Goes inp d) := by
   unfold signArm
   refine Ok.bind (peek_ok s h) ?_
@@ -1060,11 +1229,11 @@ theorem signArm_ok (excl : List String) (opTok : Tok) (s : St) (h : B inp d s) (
       refine Ok.bind (backup_ok s1 hn1) ?_
       intro _ s3 h3
       exact goes_entry_true h3.1 .number trivial
-  · refine Ok.bind (emit_ok _ s1 hb1) ?_
+  · refine Ok.bind (emit_ok _ s1 hb1 hne) ?_
     intro _ s3 h3
-    exact goes_inside h3.1
+    exact goes_inside_emit h3
 
-theorem lexInsideAction_ok (s : St) (h : B inp d s) : Ok (lexInsideAction s) (Goes inp d) := by
+theorem lexInsideAction_ok (s : St) (h : B inp d s) (hse : Entry .insideAction s) : Ok (lexInsideAction s) (Goes inp d) := by
   unfold lexInsideAction
   refine Ok.bind (atRightDelim_ok s h) ?_
   intro x s0 h0
@@ -1091,45 +1260,46 @@ theorem lexInsideAction_ok (s : St) (h : B inp d s) : Ok (lexInsideAction s) (Go
       have hst1 : s1.start = s0.start := by rw [hs1]
       have hlt1 : s1.start < s1.pos := by rw [hp1, hst1]; have := h.startPos; omega
       have hb1 := hn1.toB
+      have hse0 : s0.start = s0.pos := hse
+      obtain ⟨b0, tl0, hdrop0, hrune0⟩ := runeAt_byte s0 h.pos0 c hr1.symm
+      have hi1 : s1.input = s0.input := by rw [hs1]
       by_cases c1 : isSpace (some c) = true
       · rw [if_pos c1]; exact goes_entry_true hb1 .space hlt1
       rw [if_neg c1]
       by_cases c2 : (c == 45) = true
-      · rw [if_pos c2]; exact signArm_ok _ _ s1 hb1 hlt1
+      · rw [if_pos c2]; exact signArm_ok _ _ sign_not_field.1 s1 hb1 hlt1
       rw [if_neg c2]
       by_cases c3 : (c == 43) = true
-      · rw [if_pos c3]; exact signArm_ok _ _ s1 hb1 hlt1
+      · rw [if_pos c3]; exact signArm_ok _ _ sign_not_field.2 s1 hb1 hlt1
       rw [if_neg c3]
       cases hst : singleTok c with
       | some t =>
         dsimp only
-        refine Ok.bind (emit_ok _ s1 hb1) ?_
+        refine Ok.bind (emit_ok _ s1 hb1 (singleTok_not_field c t hst)) ?_
         intro _ s2 h2
-        exact goes_inside h2.1
+        exact goes_inside_emit h2
       | none =>
       dsimp only
       cases htt : twoTok c with
       | some tri =>
         obtain ⟨d2, both, single⟩ := tri
+        obtain ⟨hboth, tsingle, hsingle, htsingle⟩ := twoTok_not_field c d2 both single htt
+        subst hsingle
         dsimp only
         refine Ok.bind (next_ok s1 hb1) ?_
         intro r2 s2 h2
         obtain ⟨_, hs2, hn2⟩ := h2
         by_cases c4 : (r2 == some d2) = true
         · rw [if_pos c4]
-          refine Ok.bind (emit_ok _ s2 hn2.toB) ?_
+          refine Ok.bind (emit_ok _ s2 hn2.toB hboth) ?_
           intro _ s3 h3
-          exact goes_inside h3.1
+          exact goes_inside_emit h3
         · rw [if_neg c4]
           refine Ok.bind (backup_ok s2 hn2) ?_
           intro _ s3 h3
-          cases single with
-          | some t =>
-            dsimp only
-            refine Ok.bind (emit_ok _ s3 h3.1) ?_
-            intro _ s4 h4
-            exact goes_inside h4.1
-          | none => exact goes_inside h3.1
+          refine Ok.bind (emit_ok _ s3 h3.1 htsingle) ?_
+          intro _ s4 h4
+          exact goes_inside_emit h4
       | none =>
       dsimp only
       by_cases c5 : (c == 34) = true
@@ -1146,7 +1316,11 @@ theorem lexInsideAction_ok (s : St) (h : B inp d s) : Ok (lexInsideAction s) (Go
         refine Ok.bind (ok_get s1) ?_
         intro g2 s2 e2
         obtain ⟨rfl, rfl⟩ := e2
-        exact fieldOrNumber_ok _ s1 hn1
+        have hc46 : c = 46 := by simpa using c8
+        have hw46 : (runeAt s0).2 = 1 := runeAt_ascii s0 c h.pos0 hr1.symm (by omega)
+        have hb46 : b0 = 46 := byte_of_rune_dot b0 tl0 (by rw [hrune0, hc46])
+        refine fieldOrNumber_ok _ s1 hn1 ⟨by rw [hst1, hp1, hw46, hse0], tl0, ?_⟩
+        rw [hi1, hst1, hse0, hdrop0, hb46]
       rw [if_neg c8]
       by_cases c9 : (decide (48 ≤ c) && decide (c ≤ 57)) = true
       · rw [if_pos c9]
@@ -1162,14 +1336,27 @@ theorem lexInsideAction_ok (s : St) (h : B inp d s) : Ok (lexInsideAction s) (Go
         split
         · refine Ok.bind (emit_ok _ s2 hb2) ?_
           intro _ s3 h3
-          exact goes_inside h3.1
-        · exact goes_entry_true hb2 .identifier (Or.inl (by rw [hs2]; exact hlt1))
+          exact goes_inside_emit h3
+        · have hc95 : c = 95 := by simpa using c10
+          have hb0 : b0 ≠ 46 := by
+            intro hb; rw [hb, rune_of_byte_dot] at hrune0; omega
+          refine goes_entry_true hb2 .identifier ⟨⟨b0, tl0, ?_, hb0⟩, Or.inl (by rw [hs2]; exact hlt1)⟩
+          rw [hs2]
+          show List.drop s1.start.toNat s1.input = b0 :: tl0
+          rw [hi1, hst1, hse0, hdrop0]
       rw [if_neg c10]
       by_cases c11 : isAlphaNumeric (some c) = true
       · rw [if_pos c11]
         refine Ok.bind (backup_ok s1 hn1) ?_
         intro _ s3 h3
-        refine goes_entry_true h3.1 .identifier (Or.inr ⟨c, ?_, c11⟩)
+        have hb0 : b0 ≠ 46 := by
+          intro hb
+          rw [hb, rune_of_byte_dot] at hrune0
+          have : (c == 46) = true := by simp [← hrune0]
+          exact c8 this
+        have hst3 : s3.start = s0.start := by rw [h3.2, hs1]
+        have hi3 : s3.input = s0.input := by rw [h3.2, hs1]
+        refine goes_entry_true h3.1 .identifier ⟨⟨b0, tl0, by rw [hi3, hst3, hse0, hdrop0], hb0⟩, Or.inr ⟨c, ?_, c11⟩⟩
         have hra : runeAt s3 = runeAt s0 := by
           refine runeAt_congr s3 s0 (by rw [h3.2, hs1]) ?_
           rw [h3.2, hs1]
@@ -1183,7 +1370,7 @@ theorem lexInsideAction_ok (s : St) (h : B inp d s) : Ok (lexInsideAction s) (Go
         intro _ s2 h2
         refine Ok.bind (ok_modify _ s2) ?_
         intro _ s3 e3
-        exact goes_inside (by rw [e3]; exact h2.1.setParen _)
+        exact goes_inside (by rw [e3]; exact h2.1.setParen _) (by rw [e3]; show s2.start = s2.pos; rw [h2.2.1, h2.2.2.1])
       rw [if_neg c12]
       by_cases c13 : (c == 41) = true
       · rw [if_pos c13]
@@ -1192,18 +1379,19 @@ theorem lexInsideAction_ok (s : St) (h : B inp d s) : Ok (lexInsideAction s) (Go
         refine Ok.bind (ok_modify _ s2) ?_
         intro _ s3 e3
         have hb3 : B inp d s3 := by rw [e3]; exact h2.1.setParen _
+        have he3 : s3.start = s3.pos := by rw [e3]; show s2.start = s2.pos; rw [h2.2.1, h2.2.2.1]
         refine Ok.bind (ok_get s3) ?_
         intro g4 s4 e4
         obtain ⟨rfl, rfl⟩ := e4
         split
         · exact errorf_goes _ s3 hb3
-        · exact goes_inside hb3
+        · exact goes_inside hb3 he3
       rw [if_neg c13]
       by_cases c14 : (decide (32 ≤ c) && decide (c ≤ 126)) = true
       · rw [if_pos c14]
         refine Ok.bind (emit_ok _ s1 hb1) ?_
         intro _ s2 h2
-        exact goes_inside h2.1
+        exact goes_inside_emit h2
       · rw [if_neg c14]
         exact errorf_goes _ s1 hb1
 
@@ -1216,10 +1404,10 @@ theorem step_ok (st : StateId) (s : St) (h : B inp d s) (he : Entry st s) : Ok (
   | leftDelim => exact lexLeftDelim_ok s h he
   | comment => exact lexComment_ok s h he
   | rightDelim => exact lexRightDelim_ok s h he
-  | insideAction => exact lexInsideAction_ok s h
+  | insideAction => exact lexInsideAction_ok s h he
   | space => exact lexSpace_ok s h he
   | identifier => exact lexIdentifier_ok s h he
-  | field => exact lexField_ok s h
+  | field => exact lexField_ok s h he
   | char => exact lexChar_ok s h
   | number => exact lexNumber_ok s h
   | quote => exact lexQuote_ok s h
@@ -1232,12 +1420,13 @@ def Outcome.evs : Outcome → List Event
   | .outOfFuel e => e
 
 theorem runLoop_ok : ∀ (fuel : Nat) (st : StateId) (s : St), B inp d s → Entry st s →
-    (∀ m e, runLoop fuel st s ≠ .crash m e) ∧ (∀ e ∈ (runLoop fuel st s).evs, EvOk inp.length e)
+    (∀ m e, runLoop fuel st s ≠ .crash m e) ∧
+    (∀ e ∈ (runLoop fuel st s).evs, EvOk inp.length e ∧ FieldEv e)
   | 0, st, s, h, _ => by
     refine ⟨by intro m e hc; simp [runLoop] at hc, ?_⟩
     intro e he
     simp [runLoop, Outcome.evs] at he
-    exact h.events e he
+    exact ⟨h.events e he, h.fields e he⟩
   | fuel + 1, st, s, h, he => by
     have hs := step_ok st s h he
     unfold runLoop
@@ -1250,10 +1439,10 @@ theorem runLoop_ok : ∀ (fuel : Nat) (st : StateId) (s : St), B inp d s → Ent
         refine ⟨by intro m e hc; simp at hc, ?_⟩
         intro e hev
         simp [Outcome.evs] at hev
-        exact hs.1.events e hev
+        exact ⟨hs.1.events e hev, hs.1.fields e hev⟩
       | some st' => exact runLoop_ok fuel st' s' hs.1 (hs.2 st' rfl)
 
 theorem initial_B (dl : Delims) (hd : WfD dl) (input : Bytes) : B input dl { input := input, d := dl } :=
-  ⟨rfl, rfl, hd, Int.le_refl 0, Int.le_refl 0, by simp, by intro e he; simp at he⟩
+  ⟨rfl, rfl, hd, Int.le_refl 0, Int.le_refl 0, by simp, by intro e he; simp at he, by intro e he; simp at he⟩
 
 end JetVerif.Lex
